@@ -6,7 +6,8 @@
 (* only for complete behaviours.                                            *)
 EXTENDS Client, Json
 
-CONSTANT SimDepth   \* 0: print every transition (exhaustive mode)
+CONSTANTS SimDepth,  \* 0: print every transition (exhaustive mode)
+          Count      \* TRUE: print nothing (to measure an instance)
 
 VARIABLE hist
 
@@ -44,7 +45,7 @@ GenStep ==
   \/ \E n \in 0..MaxNum : UidValidity(n) /\ Log("UidValidity", None, None, n, 0)
   \/ \E f \in FlagSets : Flags(f) /\ Log("Flags", f, None, 0, 0)
   \/ \E f \in FlagSets : PermFlags(f) /\ Log("PermFlags", f, None, 0, 0)
-  \/ \E n \in 1..MaxNum, f \in FlagSets, u \in 0..MaxNum : Fetch(n, f, u) /\ Log("Fetch", f, None, n, u)
+  \/ \E n \in 1..MaxNum, f \in FlagSets, u \in 0..MaxUid : Fetch(n, f, u) /\ Log("Fetch", f, None, n, u)
   \/ \E m \in Mailboxes, n \in 0..MaxNum : Status(m, n) /\ Log("Status", m, None, n, 0)
   \/ \E m \in Mailboxes, n \in 0..MaxNum : Quota(m, n) /\ Log("Quota", m, None, n, 0)
   \/ \E m \in Mailboxes, n \in 0..MaxNum : Metadata(m, n) /\ Log("Metadata", m, None, n, 0)
@@ -56,11 +57,11 @@ GenStep ==
   \/ Enabled /\ Log("Enabled", None, None, 0, 0)
   \/ \E i \in 1..MaxCmds, n \in 1..MaxNum : Esearch(i, n) /\ Log("Esearch", None, None, n, i)
   \/ Closed /\ Log("Closed", None, None, 0, 0)
-  \/ \E i \in 1..MaxCmds, st \in {"OK", "NO", "BAD"}, code \in 0..MaxNum : Tagged(i, st, code) /\ Log("Tagged", st, None, i, code)
+  \/ \E i \in 1..MaxCmds, st \in {"OK", "NO", "BAD"}, code \in 0..MaxCode : Tagged(i, st, code) /\ Log("Tagged", st, None, i, code)
   \/ Bye /\ Log("Bye", None, None, 0, 0)
 
 Complete == ~alive' \/ Len(hist') >= SimDepth \/ (Len(cmds') = MaxCmds /\ PendingIds' = {} /\ cstate' # "selected")
-GenNext == GenStep /\ ((SimDepth = 0 \/ Complete) => PrintT(<<"T", ToJson(hist')>>))
+GenNext == GenStep /\ ((~Count /\ (SimDepth = 0 \/ Complete)) => PrintT(<<"T", ToJson(hist')>>))
 
 \* completed commands are history: their status and data are not part of the view, but WHICH positions of the
 \* submission order are still pending is (the client keeps its pending commands in a list)
